@@ -38,6 +38,8 @@ class SATEncoder:
     def _encode_exactly_one(self, lits: list[int]) -> None:
         """Encode exactly-one constraint: exactly one literal must be true."""
         if not lits:
+            # exactly one of nothing cannot hold (a variable with an empty domain has no value)
+            self._clauses.append([])
             return
         self._clauses.append(lits)
         for a, b in combinations(lits, 2):
